@@ -402,6 +402,7 @@ func CheckK(prop string, witnesses []string) func(r *Report) {
 			c01Large(r)
 			c01AWS(r)
 			c01Suffix(r)
+			c01StoreLoad(r)
 		}
 	}
 }
